@@ -29,6 +29,9 @@ type Opts struct {
 	OnPrompt func(i int)
 	HTTP     func(args *plugin.HTTPServerArgs) error
 	Terminal bool
+	// RealSym leaves the Symbolizer plug-in unset so that the driver installs its own
+	// (internal/symbolizer with the given ObjTool).
+	RealSym bool
 }
 
 // Result is everything observable at the plug-in boundaries.
@@ -285,7 +288,7 @@ func Run(o Opts) *Result {
 		Obj:     o.Obj,
 		UI:      &ui{o: &o, res: res, isTTY: o.Terminal},
 	}
-	if po.Sym == nil {
+	if po.Sym == nil && !o.RealSym {
 		po.Sym = noSym{}
 	}
 	if po.Obj == nil {
